@@ -9,6 +9,27 @@ Local Open Scope string_scope.
 Local Open Scope list_scope.
 Local Open Scope N_scope.
 
+(* side conditions on the generated tables are decided by the virtual machine, so that Qed re-checks them the same way
+   (plain conversion on these terms can take tens of minutes when the generated tables change shape) *)
+Ltac nok := lazymatch goal with |- name_ok _ _ = true => vm_compute; reflexivity end.
+(* membership of a format in all_specs: proved once per format (normalising all 23 reference layouts costs ~10 s each time) *)
+Ltac in_specs := unfold all_specs; repeat (first [left; reflexivity | right]).
+Lemma in_CommonHeader : In spec_CommonHeader all_specs. Proof. in_specs. Qed.
+Lemma in_Udp : In spec_Udp all_specs. Proof. in_specs. Qed.
+Lemma in_AcfCommon : In spec_AcfCommon all_specs. Proof. in_specs. Qed.
+Lemma in_Can : In spec_Can all_specs. Proof. in_specs. Qed.
+Lemma in_Tscf : In spec_Tscf all_specs. Proof. in_specs. Qed.
+Lemma in_Ntscf : In spec_Ntscf all_specs. Proof. in_specs. Qed.
+Lemma in_Gpc : In spec_Gpc all_specs. Proof. in_specs. Qed.
+Lemma in_Vss : In spec_Vss all_specs. Proof. in_specs. Qed.
+Lemma in_Pcm : In spec_Pcm all_specs. Proof. in_specs. Qed.
+Lemma in_Cvf : In spec_Cvf all_specs. Proof. in_specs. Qed.
+Lemma in_Crf : In spec_Crf all_specs. Proof. in_specs. Qed.
+Ltac inspec := lazymatch goal with |- In _ all_specs =>
+  first [exact in_Can | exact in_AcfCommon | exact in_CommonHeader | exact in_Udp | exact in_Tscf | exact in_Ntscf | exact in_Gpc | exact in_Vss
+        | exact in_Pcm | exact in_Cvf | exact in_Crf] end.
+Ltac eqrefl := lazymatch goal with |- _ = _ => reflexivity | |- _ <> _ => discriminate end.
+
 Definition survives (s:lstat) : Prop := s = XHandled \/ s = XDropped.
 
 Lemma blen_sub b off : blen (sub b off) = blen b - off.
@@ -49,15 +70,15 @@ Section Safe.
   Lemma cpl_ok b : 16 <= blen b -> exists v, can_payload_length LD ST cf_full b = Ok v.
   Proof.
     intros Hb. unfold can_payload_length, getf_ded. cbn [cf_len cf_pad cf_full cf_spec].
-    rewrite (fgetd_exact E spec_Can) by (first [exact Hb|reflexivity|vm_compute; tauto]). cbn [Paths.bind].
-    rewrite (fgetd_exact E spec_Can) by (first [exact Hb|reflexivity|vm_compute; tauto]). cbn [Paths.bind].
+    rewrite (fgetd_exact E spec_Can) by (first [exact Hb | nok | inspec]). cbn [Paths.bind].
+    rewrite (fgetd_exact E spec_Can) by (first [exact Hb | nok | inspec]). cbn [Paths.bind].
     eexists. reflexivity.
   Qed.
 
   Ltac can_get :=
     match goal with
     | |- context [get LD ST ?s ?n ?pdu ?off] =>
-        rewrite (get_ok s n pdu off) by (first [reflexivity | vm_compute; tauto | cbn [sp_hdr_len spec_Can spec_AcfCommon]; lia]); cbn [lbind]
+        rewrite (get_ok s n pdu off) by (first [nok | inspec | cbn [sp_hdr_len spec_Can spec_AcfCommon]; lia]); cbn [lbind]
     end.
 
   Lemma lloop_safe fd pdu proc msg_length : blen pdu = 1500 -> proc + msg_length <= 1500 ->
@@ -102,16 +123,16 @@ Section Safe.
     assert (Hp0 : proc0 <= 4) by (unfold proc0; destruct udp; lia).
     destruct (res <? proc0 + 12) eqn:E0; [right; reflexivity|]. apply N.ltb_ge in E0.
     assert (Hudp : exists x, (if udp then get LD ST spec_Udp "AVTP_UDP_FIELD_ENCAPSULATION_SEQ_NO" pdu 0 else Ok 0) = Ok x).
-    { destruct udp; [|eexists; reflexivity]. rewrite get_ok; [eexists; reflexivity|vm_compute; tauto|reflexivity|rewrite Hlen; cbn; lia]. }
+    { destruct udp; [|eexists; reflexivity]. rewrite get_ok; [eexists; reflexivity|inspec|nok|rewrite Hlen; cbn; lia]. }
     destruct Hudp as [x Hx]. rewrite Hx. cbn [lbind].
-    rewrite get_ok by (first [reflexivity|vm_compute; tauto|rewrite Hlen; cbn [sp_hdr_len spec_CommonHeader]; lia]). cbn [lbind].
+    rewrite get_ok by (first [nok | inspec | rewrite Hlen; cbn [sp_hdr_len spec_CommonHeader]; lia]). cbn [lbind].
     destruct (negb _); [right; reflexivity|].
     destruct (_ =? 5).
     - destruct (res <? proc0 + 24) eqn:E1; [right; reflexivity|]. apply N.ltb_ge in E1.
-      rewrite get_ok by (first [reflexivity|vm_compute; tauto|rewrite Hlen; cbn [sp_hdr_len spec_Tscf]; lia]). cbn [lbind].
+      rewrite get_ok by (first [nok | inspec | rewrite Hlen; cbn [sp_hdr_len spec_Tscf]; lia]). cbn [lbind].
       destruct (res - (proc0 + 24) <? _) eqn:E2; [right; reflexivity|]. apply N.ltb_ge in E2.
       apply lloop_safe; [exact Hlen|lia|lia|]. replace (N.of_nat 2048) with 2048 by reflexivity. lia.
-    - rewrite get_ok by (first [reflexivity|vm_compute; tauto|rewrite Hlen; cbn [sp_hdr_len spec_Ntscf]; lia]). cbn [lbind].
+    - rewrite get_ok by (first [nok | inspec | rewrite Hlen; cbn [sp_hdr_len spec_Ntscf]; lia]). cbn [lbind].
       destruct (res - (proc0 + 12) <? _) eqn:E2; [right; reflexivity|]. apply N.ltb_ge in E2.
       apply lloop_safe; [exact Hlen|lia|lia|]. replace (N.of_nat 2048) with 2048 by reflexivity. lia.
   Qed.
@@ -122,14 +143,14 @@ Section Safe.
   Proof.
     intros Hlen. unfold cf_prefix.
     assert (Hudp : exists x, (if udp then get LD ST spec_Udp "AVTP_UDP_FIELD_ENCAPSULATION_SEQ_NO" pdu 0 else Ok 0) = Ok x).
-    { destruct udp; [|eexists; reflexivity]. rewrite get_ok; [eexists; reflexivity|vm_compute; tauto|reflexivity|rewrite Hlen; cbn; lia]. }
+    { destruct udp; [|eexists; reflexivity]. rewrite get_ok; [eexists; reflexivity|inspec|nok|rewrite Hlen; cbn; lia]. }
     destruct Hudp as [x Hx]. rewrite Hx. cbn [xbind].
     assert (Hp0 : (if udp then 4 else 0) <= 4) by (destruct udp; lia).
-    rewrite get_ok by (first [reflexivity|vm_compute; tauto|rewrite Hlen; cbn [sp_hdr_len spec_CommonHeader]; lia]). cbn [xbind].
+    rewrite get_ok by (first [nok | inspec | rewrite Hlen; cbn [sp_hdr_len spec_CommonHeader]; lia]). cbn [xbind].
     destruct (_ =? 5).
-    - rewrite get_ok by (first [reflexivity|vm_compute; tauto|rewrite Hlen; cbn [sp_hdr_len spec_Tscf]; lia]). cbn [xbind].
+    - rewrite get_ok by (first [nok | inspec | rewrite Hlen; cbn [sp_hdr_len spec_Tscf]; lia]). cbn [xbind].
       eexists. split; [|reflexivity]. destruct udp; lia.
-    - rewrite get_ok by (first [reflexivity|vm_compute; tauto|rewrite Hlen; cbn [sp_hdr_len spec_Ntscf]; lia]). cbn [xbind].
+    - rewrite get_ok by (first [nok | inspec | rewrite Hlen; cbn [sp_hdr_len spec_Ntscf]; lia]). cbn [xbind].
       eexists. split; [|reflexivity]. destruct udp; lia.
   Qed.
 
@@ -142,10 +163,10 @@ Section Safe.
     assert (HL : List.length pdu = 1500%nat) by (unfold blen in Hlen; lia).
     match goal with |- context [cf_prefix LD ST udp pdu ?f ?k] => destruct (cf_prefix_ok udp pdu f k Hlen) as [proc [Hproc Hk]]; rewrite Hk end.
     destruct (res <? proc + 8) eqn:E1; [split; [right; reflexivity|exact HL]|]. apply N.ltb_ge in E1.
-    rewrite get_ok by (first [reflexivity|vm_compute; tauto|rewrite Hlen; cbn [sp_hdr_len spec_AcfCommon]; lia]). cbn [xbind].
+    rewrite get_ok by (first [nok | inspec | rewrite Hlen; cbn [sp_hdr_len spec_AcfCommon]; lia]). cbn [xbind].
     destruct (negb _); [split; [right; reflexivity|exact HL]|].
-    rewrite get_ok by (first [reflexivity|vm_compute; tauto|rewrite Hlen; cbn [sp_hdr_len spec_Gpc]; lia]). cbn [xbind].
-    rewrite get_ok by (first [reflexivity|vm_compute; tauto|rewrite Hlen; cbn [sp_hdr_len spec_Gpc]; lia]). cbn [xbind].
+    rewrite get_ok by (first [nok | inspec | rewrite Hlen; cbn [sp_hdr_len spec_Gpc]; lia]). cbn [xbind].
+    rewrite get_ok by (first [nok | inspec | rewrite Hlen; cbn [sp_hdr_len spec_Gpc]; lia]). cbn [xbind].
     match goal with |- context [if ?c then _ else _] => destruct c eqn:E2 end; [|split; [left; reflexivity|exact HL]].
     apply andb_true_iff in E2. destruct E2 as [_ E2]. apply N.leb_le in E2.
     match goal with |- context [if ?c then _ else _] => replace c with true by (symmetry; apply N.leb_le; lia) end.
@@ -154,9 +175,9 @@ Section Safe.
 
   (* ---------- ACF-VSS ---------- *)
   Lemma addr_mode_ok m : 12 <= blen m -> addr_mode LD ST m = Ok (ref_get spec_Vss "AVTP_VSS_FIELD_ADDR_MODE" m).
-  Proof. intros H. unfold addr_mode. apply (fgetd_exact E spec_Vss); [vm_compute; tauto|reflexivity|exact H]. Qed.
+  Proof. intros H. unfold addr_mode. apply (fgetd_exact E spec_Vss); [inspec|nok|exact H]. Qed.
   Lemma datatype_ok m : 12 <= blen m -> datatype LD ST m = Ok (ref_get spec_Vss "AVTP_VSS_FIELD_VSS_DATATYPE" m).
-  Proof. intros H. unfold datatype. apply (fgetd_exact E spec_Vss); [vm_compute; tauto|reflexivity|exact H]. Qed.
+  Proof. intros H. unfold datatype. apply (fgetd_exact E spec_Vss); [inspec|nok|exact H]. Qed.
   Lemma ld_ok w m a : a + N.of_nat (wbytes w) <= blen m -> ld (ldwE E) w m a = Ok (ldwE E w m a).
   Proof. intros H. unfold ld. replace (a + N.of_nat (wbytes w) <=? blen m) with true by (symmetry; apply N.leb_le; exact H). reflexivity. Qed.
   Lemma ld16_lt m a : ldwE E W16 m a < 2 ^ 16.
@@ -176,7 +197,7 @@ Section Safe.
     assert (HL : List.length pdu = 1500%nat) by (unfold blen in Hlen; lia).
     match goal with |- context [cf_prefix LD ST udp pdu ?f ?k] => destruct (cf_prefix_ok udp pdu f k Hlen) as [proc [Hproc Hk]]; rewrite Hk end.
     destruct (res <? proc + 14) eqn:E1; [apply okres_dropped; exact HL|]. apply N.ltb_ge in E1.
-    rewrite get_ok by (first [reflexivity|vm_compute; tauto|rewrite Hlen; cbn [sp_hdr_len spec_AcfCommon]; lia]). cbn [xbind].
+    rewrite get_ok by (first [nok | inspec | rewrite Hlen; cbn [sp_hdr_len spec_AcfCommon]; lia]). cbn [xbind].
     destruct (negb _); [apply okres_dropped; exact HL|].
     set (m := sub pdu proc).
     assert (Hm : blen m = 1500 - proc) by (unfold m; rewrite blen_sub, Hlen; reflexivity).
@@ -247,7 +268,7 @@ Section Safe.
   Qed.
   Ltac rd_tot L :=
     repeat constructor; eexists;
-    first [apply getf_ok | apply get_ok]; first [vm_compute; tauto | reflexivity | (rewrite L; cbn; lia)].
+    first [apply getf_ok | apply get_ok]; first [inspec | nok | (rewrite L; cbn; lia)].
 
   (* ---------- AAF ---------- *)
   Theorem aaf_safe st d : survives (fst (aaf_recv LD ST st d)).
@@ -258,7 +279,7 @@ Section Safe.
     destruct (negb (n =? 28)); [right; reflexivity|].
     destruct (validate_total (fun s nm => getf LD ST s nm pdu 0) aaf_checks) with (seq := q_seq st) as [r Hr]; [unfold aaf_checks; rd_tot Hlen|].
     rewrite Hr. cbn [xbind]. destruct (negb (fst r)); [right; reflexivity|].
-    rewrite getf_ok by (first [vm_compute; tauto | reflexivity | (rewrite Hlen; cbn; lia)]). cbn [xbind]. left. reflexivity.
+    rewrite getf_ok by (first [inspec | nok | (rewrite Hlen; cbn; lia)]). cbn [xbind]. left. reflexivity.
   Qed.
 
   (* ---------- CVF ---------- *)
@@ -270,8 +291,8 @@ Section Safe.
     destruct (n <? 28) eqn:E0; [right; reflexivity|]. apply N.ltb_ge in E0.
     destruct (validate_total (fun s nm => get LD ST s nm pdu 0) cvf_checks) with (seq := q_seq st) as [r Hr]; [unfold cvf_checks; rd_tot Hlen|].
     rewrite Hr. cbn [xbind]. destruct (negb (fst r)); [right; reflexivity|].
-    rewrite get_ok by (first [vm_compute; tauto | reflexivity | (rewrite Hlen; cbn; lia)]). cbn [xbind].
-    rewrite get_ok by (first [vm_compute; tauto | reflexivity | (rewrite Hlen; cbn; lia)]). cbn [xbind].
+    rewrite get_ok by (first [inspec | nok | (rewrite Hlen; cbn; lia)]). cbn [xbind].
+    rewrite get_ok by (first [inspec | nok | (rewrite Hlen; cbn; lia)]). cbn [xbind].
     match goal with |- context [if ?c then _ else _] => destruct c eqn:E1 end; [right; reflexivity|].
     apply orb_false_iff in E1. destruct E1 as [E1 E2]. apply N.ltb_ge in E1, E2.
     match goal with |- context [if ?c then _ else _] => replace c with true end; [left; reflexivity|].
@@ -329,7 +350,7 @@ Section SafeCrf.
 
   Ltac rd_tot68 L :=
     repeat constructor; eexists;
-    first [apply getf_ok | apply get_ok]; first [vm_compute; tauto | reflexivity | (rewrite L; cbn; lia)].
+    first [apply getf_ok | apply get_ok]; first [inspec | nok | (rewrite L; cbn; lia)].
 
   Lemma handle_crf_ok talker mtt pdu st : blen pdu = 68 -> cinv st ->
     exists st', handle_crf LD ST talker mtt pdu st = Ok st' /\ cinv st'.
@@ -347,7 +368,7 @@ Section SafeCrf.
     intros Hlen [Hq Hp]. unfold handle_aaf.
     destruct (validate_total (fun s nm => getf LD ST s nm pdu 0) crfaaf_checks) with (seq := c_aafseq st) as [r Hr]; [unfold crfaaf_checks; rd_tot68 Hlen|].
     rewrite Hr. cbn [xbind]. destruct (negb (fst r)); [split; [left; reflexivity|split; assumption]|].
-    rewrite getf_ok by (first [vm_compute; tauto | reflexivity | (rewrite Hlen; cbn; lia)]). cbn [xbind].
+    rewrite getf_ok by (first [inspec | nok | (rewrite Hlen; cbn; lia)]). cbn [xbind].
     set (avtp := ref_get spec_Pcm "AVTP_PCM_FIELD_AVTP_TIMESTAMP" (sub pdu 0)).
     (* the first get_next_mclk_timestamp *)
     assert (Hg : exists t0 q0 lk0, get_next (c_queue st) (c_prev st) (c_lookup st) = (t0, q0, lk0) /\ t0 < 2 ^ 64 /\ Forall lt64 q0 /\
@@ -376,7 +397,7 @@ Section SafeCrf.
       + rewrite Eq. constructor.
       + inversion Hq1; assumption.
     - destruct (negb (n =? 48) && negb (n =? 68)); [split; [left; reflexivity|exact Hinv]|].
-      rewrite getf_ok by (first [vm_compute; tauto | reflexivity | (rewrite Hlen; cbn; lia)]). cbn [xbind].
+      rewrite getf_ok by (first [inspec | nok | (rewrite Hlen; cbn; lia)]). cbn [xbind].
       destruct (_ =? 4).
       + destruct (handle_crf_ok false mtt pdu st Hlen Hinv) as [st1 [H1 Hi1]]. rewrite H1. cbn [xbind]. split; [left; reflexivity|exact Hi1].
       + destruct (_ =? 2); [apply handle_aaf_ok; assumption|split; [left; reflexivity|exact Hinv]].
